@@ -12,6 +12,11 @@ void execute_c01(const Plan &plan, Verdict &v) {
     cfg.wr_mode = (int) (plan.k("wr_mode", 0) & 3);
     cfg.flush_err = (int) (plan.k("flush_err", 0) & 1);
     cfg.with_units = plan.k("no_units", 0) == 0;
+    for (int i = 0; i < 4; i++) {
+        long l = plan.k(fmt("idn%d", i), -1);
+        cfg.idn_len[i] = l < -2 ? -1 : (int) std::min(l, 200L);
+    }
+    if (cfg.idn_len[0] != -1) COUNT("deployment_with_its_own_identification_strings");
     cfg.with_control = plan.k("no_control", 0) == 0;
     InstrOpts io;
     io.torture = true;
@@ -203,6 +208,20 @@ void generate_c01(Rng &r, const GenOpts &g, Plan &p) {
     if (r.chance(1, 5)) p.knob["wr_mode"] = r.range(1, 3);
     if (r.chance(1, 10)) p.knob["flush_err"] = 1;
     if (r.chance(1, 12)) p.knob["no_units"] = 1;
+    if (r.chance(1, 6)) {
+        // identification strings of the application's choosing: the response to *IDN? is 3 commas plus the four fields;
+        // totals around the 72 characters IEEE 488.2 names as the limit, and far beyond
+        long total = r.chance(3, 4) ? r.range(60, 84) : r.range(3, 300);
+        long left = total - 3;
+        long f[4];
+        for (int i = 0; i < 4; i++) {
+            f[i] = i == 3 ? left : (long) r.below((uint64_t) left / 2 + 1);
+            if (f[i] == 0 && r.chance(1, 2)) f[i] = -2, left -= 1;   // a NULL field is reported as "0"
+            else left -= f[i];
+            if (left < 0) left = 0;
+        }
+        for (int i = 0; i < 4; i++) p.knob[fmt("idn%d", i)] = f[i];
+    }
     if (r.chance(1, 12)) p.knob["no_control"] = 1;
     if (r.chance(1, 10)) p.knob["allocfail_all"] = 1;
     bool idle_timer = r.chance(1, 2);
